@@ -534,7 +534,7 @@ def c06(tier, rng, rep, only=None):
             rep.violation("model and implementation differ on from_str(%s): impl %s, model %s" % (c.arg, c.impl, c.model),
                           case_payload(c, g), no_input=True)
     rep.coverage.update({"evaluations": n, "distinct_nontrivial": sum(v for (f, k), v in cls.items() if k != "ok"),
-                         "rule": "integer and float declarations deriving FromStr; strings = decimal renderings of every bound and extreme +-1, overflowing digit strings, signs, whitespace, NaN/inf/-0/1e400, empty, non-numeric, non-ASCII digits, random; the real from_str is compared with <Inner as FromStr>::from_str followed by the real constructor (computed in the same process) and with the model fed the real inner-parse result",
+                         "rule": "integer and float declarations deriving FromStr; strings = decimal renderings of every bound and extreme +-1, overflowing digit strings, signs, whitespace, NaN/inf/-0/1e400, empty, non-numeric, non-ASCII digits, random; the real from_str is compared with <Inner as FromStr>::from_str followed by the real constructor (computed in the same process) and with the model: for integer types the model parses the text itself (Sem/Text.parse_int, core's decimal grammar), for floats it is fed the real inner-parse result",
                          "outcome_classes": {"%s/%s" % k: v for k, v in sorted(cls.items())}, "exhaustive": False})
     for c in g.cases[:: max(1, len(g.cases) // 6)][:6]:
         rep.samples.append({"decl": c.decl.id, "inner": c.decl.inner, "arg": c.arg, "impl": c.impl, "inner_parse": c.oracle})
@@ -919,6 +919,9 @@ def c13(tier, rng, rep, only=None):
         if len(vals) > 40:
             vals = vals[:: max(1, len(vals) // 40)]
         ops = [("views", val_sexp(v)) for v in vals]
+        if d.family() == "int" and "Display" in runner.DeclInfo(d).traits:
+            # the decimal text itself, against the model's printer (Sem/Text.show_int)
+            ops += [("show_i", val_sexp(v)) for v in vals]
         pv = pair_inputs(d, r, tier)[:10]
         for a in pv:
             for b_ in pv:
@@ -927,16 +930,22 @@ def c13(tier, rng, rep, only=None):
     g = make_guard_run(tier, rng, decls=only, ops_for=ops_for, spec=False)
     run_guard(g, rep, rng)
     profile_crosscheck(g, rep)
-    n = nviews = npairs = 0
+    n = nviews = npairs = nshow = 0
     fields = {}
     for c in g.cases:
-        if c.decl.id not in g.live or c.impl is None or c.impl in ("na", "rejected"):
+        if c.decl.id not in g.live or c.impl is None or (c.impl in ("na", "rejected") and c.op != "show_i"):
             continue
         n += 1
         if c.impl == "panic":
             if c.decl.family() == "float" and c.op == "cmp2":
                 continue        # NaN through Ord of a float type is C12's concern (requires finite)
             rep.violation("%s panicked on %s" % (c.op, c.arg), case_payload(c, g))
+            continue
+        if c.op == "show_i":
+            nshow += 1
+            if c.impl != c.model:
+                rep.violation("Display text of %s for input %s: implementation %s, model (decimal numeral of the stored value) %s"
+                              % (c.decl.id, c.arg, c.impl, c.model), case_payload(c, g), no_input=(c.model is None))
             continue
         kv = parse_kv(c.impl)
         if kv is None:
@@ -964,7 +973,9 @@ def c13(tier, rng, rep, only=None):
                 rep.violation("model and implementation differ on cmp2 %s: %s vs %s" % (c.arg, c.impl, c.model), case_payload(c, g), no_input=True)
     rep.coverage.update({"evaluations": n, "distinct_nontrivial": nviews + npairs,
                          "rule": "guard corpus (all families, generic wrapper included); every view (AsRef, Deref, Borrow, Borrow<str>, Into, Display, Clone, Copy, by-value and by-reference iteration) on obtainable values compared with the stored inner value inside the same process; eq / partial_cmp / cmp / hash on pairs (equal, adjacent, extreme, differing only before sanitisation) compared with the inner values and with the model",
-                         "checked_fields": fields, "exhaustive": False})
+                         "checked_fields": fields, "display_texts_vs_model_printer": nshow, "exhaustive": False})
+    if not nshow:
+        rep.violation("self-check: no integer Display text compared with the model", {"kind": "coverage"}, no_input=True)
     for c in [c for c in g.cases if c.impl and "=" in c.impl][:: max(1, (nviews + npairs) // 6 or 1)][:6]:
         rep.samples.append({"decl": c.decl.id, "op": c.op, "arg": c.arg, "impl": c.impl})
     for k in ("as_ref", "deref", "borrow", "borrow_str", "display", "display_fmt", "clone", "copy", "into", "iter_ref", "iter_val", "eq", "pcmp", "cmp", "h", "hstr"):
